@@ -748,3 +748,118 @@ def helpers_per_instance():
                     out.append({"name": f"structural::C12::helper_owner.{cf.name}.{mname}[{n.func.id}]", "ok": True, "info": helpers_per_instance.__doc__,
                                 "detail": f"{cf.rel}:{n.lineno}"})
     return out
+
+
+# ------------------------------------------------------------------------------------------------ C17 / C06: configuration tables
+def _const_value(cf: ClassFacts, e: Optional[ast.expr]):
+    """evaluate a default_value expression: constant, or class constant RuleX.__name / self.__name"""
+    if e is None:
+        return None
+    if isinstance(e, ast.Constant):
+        return e.value
+    if isinstance(e, ast.UnaryOp) and isinstance(e.op, ast.USub) and isinstance(e.operand, ast.Constant):
+        return -e.operand.value
+    if isinstance(e, ast.Attribute):
+        for n in cf.node.body:
+            if isinstance(n, ast.Assign) and isinstance(n.targets[0], ast.Name) and n.targets[0].id == e.attr:
+                return _const_value(cf, n.value)
+            if isinstance(n, ast.AnnAssign) and isinstance(n.target, ast.Name) and n.target.id == e.attr and n.value is not None:
+                return _const_value(cf, n.value)
+    return ("<expr>", ast.unparse(e))
+
+
+def rule_config_reads(cf: ClassFacts):
+    reads = {}
+    other = []
+    for mname, m in cf.methods.items():
+        for n in ast.walk(m):
+            if isinstance(n, ast.Call) and isinstance(n.func, ast.Attribute) and isinstance(n.func.value, ast.Attribute) \
+                    and n.func.value.attr == "plugin_configuration":
+                mm = {"get_boolean_property": "boolean", "get_integer_property": "integer", "get_string_property": "string"}.get(n.func.attr)
+                if mm is None or not n.args or not isinstance(n.args[0], ast.Constant):
+                    other.append((mname, n.lineno, ast.unparse(n)[:80]))
+                    continue
+                dv = next((k.value for k in n.keywords if k.arg == "default_value"), n.args[1] if len(n.args) > 1 else None)
+                vf = next((k.value for k in n.keywords if k.arg == "valid_value_fn"), None)
+                reads[n.args[0].value] = {"type": mm, "default": _const_value(cf, dv), "validated": vf is not None, "where": f"{mname}@{n.lineno}"}
+            elif isinstance(n, ast.Attribute) and n.attr == "plugin_configuration" and not isinstance(getattr(n, "ctx", None), ast.Store):
+                pass
+    return reads, other
+
+
+def rule_details(cf: ClassFacts):
+    gd = cf.methods.get("get_details")
+    out = {}
+    if gd is None:
+        return out
+    for n in ast.walk(gd):
+        if isinstance(n, ast.Call) and isinstance(n.func, ast.Name) and n.func.id.startswith("PluginDetails"):
+            for k in n.keywords:
+                if isinstance(k.value, ast.Constant):
+                    out[k.arg] = k.value.value
+    return out
+
+
+def _norm_default(v):
+    if isinstance(v, bool):
+        return str(v)
+    if isinstance(v, int):
+        return str(v)
+    if v is None:
+        return "None"
+    if isinstance(v, str):
+        return v
+    return str(v)
+
+
+def _norm_doc_default(s: str):
+    s = s.strip()
+    if s in ('""', "''"):
+        return ""
+    return s.strip('"')
+
+
+@check("C17", "C06")
+def rule_config_tables():
+    """for every rule: the identifiers (id + names) and every configuration item (name, type, default) that the code reads are
+    the ones of the rule's documentation (specs/rule_config.json), every read goes through a typed getter, and nothing
+    undocumented is read"""
+    spec = json.load(open(os.path.join(HERE, "..", "specs", "rule_config.json")))
+    rules = spec["rules"]
+    corrections = spec.get("corrections", {})
+    out = []
+    for cf in plugin_classes().values():
+        if not is_rule(cf):
+            continue
+        det = rule_details(cf)
+        rid = str(det.get("plugin_id", "")).lower()
+        doc = rules.get(rid)
+        if doc is None:
+            out.append({"name": f"structural::C17::config.{cf.name}.documented", "ok": False, "info": "rule has a documentation page", "detail": f"no spec entry for {rid}"})
+            continue
+        names = [x.strip() for x in str(det.get("plugin_name", "")).split(",") if x.strip()]
+        want_prefixes = corrections.get(f"{rid}.prefixes", {}).get("value", doc["prefixes"])
+        out.append({"name": f"structural::C17::config.{cf.name}.identifiers", "ok": [rid] + names == want_prefixes,
+                    "info": f"{cf.rel}: id and names equal the documented prefixes", "detail": f"code {[rid] + names} documented {want_prefixes}"})
+        reads, other = rule_config_reads(cf)
+        out.append({"name": f"structural::C17::config.{cf.name}.typed_getters_only", "ok": not other,
+                    "info": "every configuration read goes through get_boolean/integer/string_property with a literal key", "detail": str(other)})
+        items = dict(doc["items"])
+        en = items.pop("enabled", None)
+        en_want = corrections.get(f"{rid}.enabled", {}).get("value", en["default"] if en else None)
+        out.append({"name": f"structural::C17::config.{cf.name}.enabled_default", "ok": en is not None and str(det.get("plugin_enabled_by_default")) == en_want,
+                    "info": "default enabled state equals the documented one", "detail": f"code {det.get('plugin_enabled_by_default')} documented {en_want}"})
+        for k in sorted(set(items) | set(reads)):
+            c = corrections.get(f"{rid}.{k}")
+            d = items.get(k)
+            r = reads.get(k)
+            if c is not None and c.get("value") is not None:
+                d = c["value"]
+            if c is not None and c.get("value") is None and c.get("undocumented_ok"):
+                out.append({"name": f"structural::C17::config.{cf.name}.item[{k}]", "ok": True, "info": "documented exception", "detail": c.get("why", "")})
+                continue
+            ok = d is not None and r is not None and d["type"] == r["type"] and _norm_doc_default(d["default"]) == _norm_default(r["default"])
+            out.append({"name": f"structural::C17::config.{cf.name}.item[{k}]", "ok": ok,
+                        "info": f"{cf.rel}: item '{k}' has the documented type and default",
+                        "detail": f"code {r} documented {d}"})
+    return out
